@@ -4,7 +4,9 @@
    two unreachable! of the token->operator conversions).  Property theorems only; proofs in
    proofs/ParserProof.v, LexerProof.v. *)
 From DTR Require Import Prelude I64 Ast FramedMap Lexer Parser Bind Eval Stmt Iter WfSpec.
-From DTR.proofs Require Import EvalProof IterLogProof OutputsProof NoPanicProof ParserProof BindProof Chain LexerProof.
+From DTR Require Import Generated GeneratedTables.
+From DTR.proofs Require Import EvalProof IterLogProof OutputsProof NoPanicProof ParserProof BindProof Chain LexerProof TablesProof.
+From Coq Require Import String.
 Local Open Scope nat_scope.
 
 (* for EVERY string *)
@@ -27,7 +29,7 @@ Proof. exact parse_block_never_panics. Qed.
 Theorem C09_block_fuel :
   forall (fuel : nat) (input_len : N) (hdr : list name) (end_token : option tk) 
   (block : list stmt) (st : pstate),
-  fuel >= 2 + 4 * length (toks st) -> parse_block_loop input_len hdr fuel end_token block st <> OOF.
+  fuel >= 2 + 4 * List.length (toks st) -> parse_block_loop input_len hdr fuel end_token block st <> OOF.
 Proof. exact parse_block_never_oof. Qed.
 
 Theorem C09_lexer_total :
@@ -80,6 +82,21 @@ Theorem C09_token_spans_bounded :
   lex_body pos s = Some ts ->
   In t ts -> (pos <= fst (tspan t))%N /\ (fst (tspan t) <= snd (tspan t) <= pos + text_bytes s)%N.
 Proof. exact lex_body_span_bounds. Qed.
+
+(* ---- T1: the scanner model was written for exactly the tokens and regular expressions of
+   src/lexer/token.rs (GeneratedTables.v is regenerated from it on every run) *)
+Theorem C09_lexer_regexes_are_the_source : gen_regexes =
+  [ ("Ident", "[A-Za-z_]([A-Za-z]|_|\d)*"); ("DecInt", "[1-9][0-9]*"); ("HexInt", "0[xX][0-9a-fA-F]+");
+    ("BinInt", "0[bB][01]+"); ("OctInt", "0[0-7]*"); ("WS", "[ \t\r\f]+"); ("Comment", "#[^\n]*") ]%string.
+Proof. exact regexes_pinned. Qed.
+Theorem C09_keywords_are_the_source : keywords = gen_keywords.
+Proof. exact keywords_pinned. Qed.
+Theorem C09_punctuation_is_the_source : forallb (fun p =>
+    match lex_one ((s2n (fst p) ++ [32%N])%list) with
+    | Some (Some k, w, r) => tk_beq k (snd p) && name_eqb w (s2n (fst p)) && name_eqb r [32%N]
+    | _ => false
+    end) gen_punct = true.
+Proof. exact punct_tokens_lexed. Qed.
 
 Check C09_parse_never_panics.
 Print Assumptions C09_parse_never_panics.
